@@ -82,7 +82,9 @@ def case_del_idempotent(c, res):
     try:
         A.Function(12345, m)
         raise Viol('Function.__init__#refuses-unknown-node', '')
-    except ValueError:
+    except Viol:
+        raise
+    except Exception:  # noqa: refused (the property does not fix the exception type)
         pass
     wf(m._bdd)
     del f
